@@ -195,6 +195,21 @@ Section GroupSort.
     ((bucket_id r x < bucket_id r y)%Z <-> klt x y) /\ ((bucket_id r x = bucket_id r y)%Z <-> keq x y).
   Proof. intros. apply grouped_bid_from; try assumption; lia. Qed.
 
+  Lemma grouped_app c1 c2 :
+    grouped c1 -> grouped c2 ->
+    (forall x y, In x (concat c1) -> In y (concat c2) -> klt x y) -> grouped (c1 ++ c2).
+  Proof.
+    induction 1 as [|b r Hb Heq Hlt Hg IH]; intros G2 H; simpl; [assumption|].
+    constructor; [assumption|assumption| |].
+    - intros x y Hx Hy. rewrite concat_app in Hy. apply in_app_or in Hy as [Hy|Hy]; [auto|].
+      apply H; [simpl; apply in_or_app; left; assumption|assumption].
+    - apply IH; [assumption|]. intros x y Hx Hy. apply H; [simpl; apply in_or_app; right; assumption|assumption].
+  Qed.
+
+  Lemma grouped_single b :
+    b <> [] -> (forall x y, In x b -> In y b -> keq x y) -> grouped [b].
+  Proof. intros Hb H. constructor; [assumption|assumption|intros ? ? ? []|constructor]. Qed.
+
   (** the order relation of [rank_by l] only depends on the keys (not on the listing order of l) *)
   Theorem rank_by_order l x y :
     NoDup l -> In x l -> In y l ->
